@@ -16,7 +16,7 @@ EXTRA = ["@src/hash_table.c", "@src/glist.c", "@src/bitvec.c"]
 GROUPS = [
     dict(name="fsg_model_tag_trans_add", harness=H, enforce="fsg_model_tag_trans_add", replace=REPL, allow_no_body=NB, min_postconditions=5),
     dict(name="fsg_model_null_trans_add", harness=H, enforce="fsg_model_null_trans_add", replace=REPL + ["fsg_model_tag_trans_add"], allow_no_body=NB, min_postconditions=3),
-    dict(name="null_closure_3", harness=HB, entry="r_null_closure", defines=["NST=3", "ALL_PRESENT", "ROT=1"], extra_sources=EXTRA, allow_no_body=NBB, unwind=12,
+    dict(name="null_closure_3", tiers=("probe",), harness=HB, entry="r_null_closure", defines=["NST=3", "ALL_PRESENT", "ROT=1"], extra_sources=EXTRA, allow_no_body=NBB, unwind=12,
          unwindset="hash_table_iter_next.0:110,fsg_model_null_trans_closure.4:5,fsg_model_null_trans_closure.3:5,fsg_model_null_trans_closure.2:4,fsg_model_null_trans_closure.1:4,fsg_model_null_trans_closure.0:5",
          flags=["--no-undefined-shift-check", "--no-signed-overflow-check"], replay=RB("r_null_closure", defines=["NST=3", "ALL_PRESENT", "ROT=1"]),
          bounded="3 states, all 3 null arcs i<j present, symbolic log-probabilities in [-1000,0]; real hash table / glist code"),
